@@ -1,7 +1,8 @@
 (* C03 - Save followed by open is the identity on databases.
    Statements only.  Model: format/Kdbx4.v (container framing, parametric in the primitives),
    xml/Scalars.v (scalar codecs). *)
-From KP Require Import Bytes Outcome LE Version Kdbx4 Kdbx4Facts Scalars ScalarsProofs.
+From Coq Require Import Permutation.
+From KP Require Import Bytes Outcome LE Version Kdbx4 Kdbx4Facts Kdbx4Proofs Scalars ScalarsProofs.
 Local Open Scope N_scope.
 
 (* colour codec: every colour survives write/read (after the repair of F1) *)
@@ -13,3 +14,27 @@ Proof. exact color_roundtrip. Qed.
 Theorem c03_color_old_refuted :
   exists r g b, r < 256 /\ g < 256 /\ b < 256 /\ parse_color (fmt_color_old r g b) <> Some (r, g, b).
 Proof. exact color_old_refuted. Qed.
+
+(* the framing round trip: for ALL primitives satisfying the two inverse laws and the two length
+   laws, all configurations, all orders of the KDF dictionary, all attachments and payloads,
+   reading what the writer wrote returns the configuration, the attachments, the inner stream key
+   and the XML payload that were written *)
+Theorem c03_frame_roundtrip :
+  forall (sha256 sha512 : bytes -> bytes) (hmac256 : bytes -> bytes -> bytes)
+         (kdf : kdfcfg -> bytes -> bytes -> Kdbx4.res bytes)
+         (outer_enc outer_dec : ocipher -> bytes -> bytes -> bytes -> Kdbx4.res bytes)
+         (compress decompress : compression -> bytes -> Kdbx4.res bytes),
+  (forall c key iv p ct, outer_enc c key iv p = Ok ct -> outer_dec c key iv ct = Ok p) ->
+  (forall z p c, compress z p = Ok c -> decompress z c = Ok p) ->
+  (forall m, length (sha256 m) = 32%nat) ->
+  (forall k m, length (hmac256 k m) = 32%nat) ->
+  forall cfg d vd els atts xml file minor,
+  c_version cfg = KDB4 minor -> minor < 2 ^ 16 ->
+  draws_ok cfg d = true ->
+  Permutation vd (vd_of_kdf (c_kdf cfg) (d_kdf_seed d)) ->
+  kdf_params_ok (c_kdf cfg) = true ->
+  atts_ok atts = true ->
+  dump4 sha256 sha512 hmac256 kdf outer_enc compress cfg d vd els atts xml = Ok file ->
+  N.of_nat (length file) < 2 ^ 32 ->
+  decrypt4 sha256 sha512 hmac256 kdf outer_dec decompress file els = Ok (cfg, atts, d_inner_key d, xml).
+Proof. exact frame_roundtrip_small_file. Qed.
